@@ -44,7 +44,7 @@ verdict), "G" = generator of an input / fault space, "A" = acceptor used for tra
 
 | spec dir | modules | role | binds to code through | serves |
 |---|---|---|---|---|
-| `fanout` | `Fanout` (I: publisher, joiners, consumer goroutines, closer, stoppers, replacement; named deviations FixWake / FixAttach / FixCount / FixJoin), `FanoutProp` (P), `MCFanout` (invariants, edge classes), `FanoutTrace` (A, API level), `FanoutSteps` (A, step level) | model check + schedule generation + trace validation | `harness/fanout` + `harness/vsched` (goroutines parked at `vhook.At` points, one step at a time) | C01 C02 C03 C04 |
+| `fanout` | `Fanout` (I: publisher, joiners, consumer goroutines, closer, stoppers, replacement; named deviations FixWake / FixAttach / FixCount / FixJoin), `FanoutProp` (P), `MCFanout` (invariants, edge classes), `FanoutTrace` (A, API level), `FanoutSteps` (A, step level), `TransportTrace` (A: what real clients of every transport read) | model check + schedule generation + trace validation | `harness/fanout` + `harness/vsched` (goroutines parked at `vhook.At` points, one step at a time) | C01 C02 C03 C04 |
 | `registry` | `Registry` (P: sequential reference model with the statement's clauses as invariants), `RegistRace` (I: two concurrent Regist / GetOrCreate), `RaceTrace` (A) | histories (exhaustive, edge cover, walks), race schedules | `harness/registry` | C05 (and C03's registry leg) |
 | `rtsp` | `RtspSession` (P/I: 20 request kinds x state) | edge cover + walks | `harness/rtspsess` against a live server | C12 |
 | `wire` | `WriteLock` (I: lock protocol, negative controls NoFrameLock / NoRespLock), `BufferedWrite` (I: the shared write buffer at copy / advance, emit / reset grain; negative control flush outside the lock), `WireTrace` (A) | gates at `frame.prefix` / `flush.written` | `harness/c13`, tcp + websocket | C13 |
@@ -157,9 +157,11 @@ enumerated; this section only records where the build differs from the design.
 
 * **C01-C04** as designed (`Fanout*`, gate scheduler). Added during the build: FLV media mode, replacement,
   3-consumer scenarios, packetisation variants, consumers whose Close panics, simulation from the as-found model
-  (so that schedules the fixed model no longer produces are still replayed), stratified "racy" edge classes. C01's
-  transport legs (UDP, multicast, WSP) were not built: the property is decided at the media.Stream API; the TCP /
-  WebSocket writers are exercised by C13.
+  (so that schedules the fixed model no longer produces are still replayed), stratified "racy" edge classes, and (late) a
+  transport leg for C01: real RTSP/TCP, RTSP/UDP, ws-rtsp, WSP, HTTP-FLV and WebSocket-FLV clients of a running server,
+  validated against `TransportTrace.tla`. It showed that the stream writers batch (data waits in the connection buffer
+  until the next write if the last flush is younger than 20 ms): with a publisher that goes quiet the tail is not
+  delivered until it speaks again - by design, handled by a trailer in the driver and stated as an assumption.
 * **C05** `Registry.tla` is a sequential reference model (histories) rather than a step model; the races are in
   `RegistRace.tla`. HLS access ("recent" by instants) was added after seed C05-3.
 * **C06** as designed plus sender-report leg, sequence wrap placed inside plans, RTP time 0 and 2^32 crossing.
@@ -223,7 +225,7 @@ counterexample that did not reproduce) - never a verdict.
 
 ## 12. Limits and what is not covered
 
-* Transport legs of C01 over UDP / multicast / WSP; stream replacement
+* C01 over the multicast proxy (no multicast route in the sandbox; the other transports are driven); stream replacement
   while a disk-mode HLS stream of the same path still owns files with the same names (C10).
 * Freshness of the HLS window is a verdict in disk mode and at quiescence over HTTP only; in memory mode it is
   covered by model drift.
